@@ -12,13 +12,149 @@ package process
 //@ macro typedName(n Name) bool = n.Type != nil && base(modeOf(n.Type))
 
 //@ contract declationOfIndependenceOne
-//@   requires typedName(left) && rightType != nil && base(modeOf(rightType))
+//@   requires[C09] typedName(left) && rightType != nil && base(modeOf(rightType))
 //@   ensures C06.doiOne: (result == nil) == ge(modeOf(left.Type), modeOf(rightType))
-//@   safety C09, C06
+//@   safety C09
 
 //@ contract declationOfIndependence
-//@   requires succedentType != nil && base(modeOf(succedentType))
-//@   requires forall k int :: 0 <= k && k < len(antecedents) ==> typedName(antecedents[k])
+//@   requires[C09] succedentType != nil && base(modeOf(succedentType))
+//@   requires[C09] forall k int :: 0 <= k && k < len(antecedents) ==> typedName(antecedents[k])
 //@   ensures C06.doi: (result == nil) == (forall k int :: 0 <= k && k < len(antecedents) ==> ge(modeOf(antecedents[k].Type), modeOf(succedentType)))
 //@   loop 1 invariant (forall k int :: 0 <= k && k <= idx ==> ge(modeOf(antecedents[k].Type), modeOf(succedentType)))
-//@   safety C09, C06
+//@   safety C09
+
+// ---------------------------------------------------------------------------------------------
+// Shape of process terms (assumed of what the parser builds): finite trees without nil children, and
+// (at typechecking time) names that are not yet bound to run-time channels.
+
+//@ spec fsize(f Form) int
+//@ macro kid(c Form, bound int) bool = c != nil && formOK(c) && fsize(c) >= 0 && fsize(c) < bound
+//@ macro branchesOK(bs []*BranchForm, bound int) bool = forall i int :: 0 <= i && i < len(bs) ==> bs[i] != nil && kid(bs[i].continuation_e, bound)
+//@ spec formOK(f Form) bool = f != nil && fsize(f) >= 0 &&
+//@    (is(f, ReceiveForm) ==> kid(ReceiveForm(f).continuation_e, fsize(f))) &&
+//@    (is(f, BranchForm) ==> kid(BranchForm(f).continuation_e, fsize(f))) &&
+//@    (is(f, CaseForm) ==> branchesOK(CaseForm(f).branches, fsize(f))) &&
+//@    (is(f, NewForm) ==> kid(NewForm(f).body, fsize(f)) && kid(NewForm(f).continuation_e, fsize(f))) &&
+//@    (is(f, SplitForm) ==> kid(SplitForm(f).continuation_e, fsize(f))) &&
+//@    (is(f, WaitForm) ==> kid(WaitForm(f).continuation_e, fsize(f))) &&
+//@    (is(f, ShiftForm) ==> kid(ShiftForm(f).continuation_e, fsize(f))) &&
+//@    (is(f, DropForm) ==> kid(DropForm(f).continuation_e, fsize(f))) &&
+//@    (is(f, PrintForm) ==> kid(PrintForm(f).continuation_e, fsize(f)))
+
+// ---------------------------------------------------------------------------------------------
+// C05: the substructural discipline. lin(f, D, sh): the term f uses every name of D (the domain of the
+// context) exactly once on every path, binders are fresh, and nothing is left over; sh is the name standing
+// for the provider (nil: only `self`).
+
+//@ macro isProv(ident string, self bool, sh *Name) bool = self || (sh != nil && ident == sh.Ident)
+//@ macro one(a string) Set[string] = add(emptyStrSet, a)
+//@ macro two(a string, b string) Set[string] = add(add(emptyStrSet, a), b)
+
+//@ macro linSend(p *SendForm, D Set[string], sh *Name) bool =
+//@    ite(isProv(p.to_c.Ident, p.to_c.IsSelf, sh),
+//@        !p.payload_c.IsSelf && !p.continuation_c.IsSelf && p.payload_c.Ident != p.continuation_c.Ident && D == two(p.payload_c.Ident, p.continuation_c.Ident),
+//@    ite(isProv(p.continuation_c.Ident, p.continuation_c.IsSelf, sh),
+//@        !p.payload_c.IsSelf && p.to_c.Ident != p.payload_c.Ident && D == two(p.to_c.Ident, p.payload_c.Ident),
+//@        false))
+
+//@ macro linRecv(p *ReceiveForm, D Set[string], sh *Name) bool =
+//@    ite(isProv(p.from_c.Ident, p.from_c.IsSelf, sh),
+//@        !D[p.payload_c.Ident] && !D[p.continuation_c.Ident] && p.payload_c.Ident != p.continuation_c.Ident &&
+//@           lin(p.continuation_e, add(D, p.payload_c.Ident), addr(p, ReceiveForm, continuation_c)),
+//@    ite(isProv(p.payload_c.Ident, p.payload_c.IsSelf, sh) || isProv(p.continuation_c.Ident, p.continuation_c.IsSelf, sh), false,
+//@        D[p.from_c.Ident] && !remove(D, p.from_c.Ident)[p.payload_c.Ident] && !remove(D, p.from_c.Ident)[p.continuation_c.Ident] &&
+//@           p.payload_c.Ident != p.continuation_c.Ident &&
+//@           lin(p.continuation_e, add(add(remove(D, p.from_c.Ident), p.payload_c.Ident), p.continuation_c.Ident), sh)))
+
+//@ macro linSelect(p *SelectForm, D Set[string], sh *Name) bool =
+//@    ite(isProv(p.to_c.Ident, p.to_c.IsSelf, sh), !p.continuation_c.IsSelf && D == one(p.continuation_c.Ident),
+//@    ite(isProv(p.continuation_c.Ident, p.continuation_c.IsSelf, sh), D == one(p.to_c.Ident), false))
+
+//@ macro linCase(p *CaseForm, D Set[string], sh *Name) bool =
+//@    ite(isProv(p.from_c.Ident, p.from_c.IsSelf, sh),
+//@        (forall i int :: 0 <= i && i < len(p.branches) ==> lin(p.branches[i].continuation_e, D, addr(p.branches[i], BranchForm, payload_c))),
+//@        D[p.from_c.Ident] && (forall i int :: 0 <= i && i < len(p.branches) ==>
+//@             !remove(D, p.from_c.Ident)[p.branches[i].payload_c.Ident] &&
+//@             lin(p.branches[i].continuation_e, add(remove(D, p.from_c.Ident), p.branches[i].payload_c.Ident), sh)))
+
+//@ macro linClose(p *CloseForm, D Set[string], sh *Name) bool = isProv(p.from_c.Ident, p.from_c.IsSelf, sh) && D == emptyStrSet
+
+//@ macro linWait(p *WaitForm, D Set[string], sh *Name) bool =
+//@    !isProv(p.to_c.Ident, p.to_c.IsSelf, sh) && D[p.to_c.Ident] && lin(p.continuation_e, remove(D, p.to_c.Ident), sh)
+
+//@ macro linFwd(p *ForwardForm, D Set[string], sh *Name) bool =
+//@    isProv(p.to_c.Ident, p.to_c.IsSelf, sh) && !isProv(p.from_c.Ident, p.from_c.IsSelf, sh) && D == one(p.from_c.Ident)
+
+//@ macro linDrop(p *DropForm, D Set[string], sh *Name) bool =
+//@    !isProv(p.client_c.Ident, p.client_c.IsSelf, sh) && D[p.client_c.Ident] && lin(p.continuation_e, remove(D, p.client_c.Ident), sh)
+
+//@ macro linSplit(p *SplitForm, D Set[string], sh *Name) bool =
+//@    !isProv(p.from_c.Ident, p.from_c.IsSelf, sh) && D[p.from_c.Ident] &&
+//@    !remove(D, p.from_c.Ident)[p.channel_one.Ident] && !remove(D, p.from_c.Ident)[p.channel_two.Ident] && p.channel_one.Ident != p.channel_two.Ident &&
+//@    lin(p.continuation_e, add(add(remove(D, p.from_c.Ident), p.channel_one.Ident), p.channel_two.Ident), sh)
+
+//@ macro linCast(p *CastForm, D Set[string], sh *Name) bool =
+//@    ite(isProv(p.to_c.Ident, p.to_c.IsSelf, sh), !p.continuation_c.IsSelf && D == one(p.continuation_c.Ident),
+//@    ite(isProv(p.continuation_c.Ident, p.continuation_c.IsSelf, sh), D == one(p.to_c.Ident), false))
+
+//@ macro linShift(p *ShiftForm, D Set[string], sh *Name) bool =
+//@    ite(isProv(p.from_c.Ident, p.from_c.IsSelf, sh),
+//@        !D[p.continuation_c.Ident] && lin(p.continuation_e, D, addr(p, ShiftForm, continuation_c)),
+//@    ite(isProv(p.continuation_c.Ident, p.continuation_c.IsSelf, sh), false,
+//@        D[p.from_c.Ident] && !remove(D, p.from_c.Ident)[p.continuation_c.Ident] &&
+//@           lin(p.continuation_e, add(remove(D, p.from_c.Ident), p.continuation_c.Ident), sh)))
+
+//@ macro linPrint(p *PrintForm, D Set[string], sh *Name) bool = lin(p.continuation_e, D, sh)
+
+// the arguments from index `from` on are exactly the names of D, each once
+//@ macro argsExactly(ps []Name, from int, D Set[string]) bool =
+//@    (forall i int :: from <= i && i < len(ps) ==> !ps[i].IsSelf && D[ps[i].Ident]) &&
+//@    (forall i int, j int :: from <= i && i < j && j < len(ps) ==> ps[i].Ident != ps[j].Ident) &&
+//@    (forall x string :: D[x] ==> (exists i int :: from <= i && i < len(ps) && ps[i].Ident == x))
+//@ macro linCall(p *CallForm, D Set[string], sh *Name) bool =
+//@    argsExactly(p.parameters, 0, D) || (len(p.parameters) >= 1 && isProv(p.parameters[0].Ident, p.parameters[0].IsSelf, sh) && argsExactly(p.parameters, 1, D))
+
+//@ macro linNew(p *NewForm, D Set[string], sh *Name) bool = true
+
+//@ spec lin(f Form, D Set[string], sh *Name) bool =
+//@    (is(f, SendForm) ==> linSend(SendForm(f), D, sh)) &&
+//@    (is(f, ReceiveForm) ==> linRecv(ReceiveForm(f), D, sh)) &&
+//@    (is(f, SelectForm) ==> linSelect(SelectForm(f), D, sh)) &&
+//@    (is(f, CaseForm) ==> linCase(CaseForm(f), D, sh)) &&
+//@    (is(f, NewForm) ==> linNew(NewForm(f), D, sh)) &&
+//@    (is(f, CloseForm) ==> linClose(CloseForm(f), D, sh)) &&
+//@    (is(f, WaitForm) ==> linWait(WaitForm(f), D, sh)) &&
+//@    (is(f, ForwardForm) ==> linFwd(ForwardForm(f), D, sh)) &&
+//@    (is(f, DropForm) ==> linDrop(DropForm(f), D, sh)) &&
+//@    (is(f, SplitForm) ==> linSplit(SplitForm(f), D, sh)) &&
+//@    (is(f, CallForm) ==> linCall(CallForm(f), D, sh)) &&
+//@    (is(f, CastForm) ==> linCast(CastForm(f), D, sh)) &&
+//@    (is(f, ShiftForm) ==> linShift(ShiftForm(f), D, sh)) &&
+//@    (is(f, PrintForm) ==> linPrint(PrintForm(f), D, sh)) &&
+//@    !is(f, BranchForm)
+
+// At typechecking time no name of the term is bound to a run-time channel yet, so that name equality is
+// equality of identifiers.
+//@ macro unKid(c Form) bool = c == nil || uninit(c)
+//@ spec uninit(f Form) bool =
+//@    (is(f, SendForm) ==> SendForm(f).to_c.Channel == nil && SendForm(f).payload_c.Channel == nil && SendForm(f).continuation_c.Channel == nil) &&
+//@    (is(f, ReceiveForm) ==> ReceiveForm(f).payload_c.Channel == nil && ReceiveForm(f).continuation_c.Channel == nil && ReceiveForm(f).from_c.Channel == nil && unKid(ReceiveForm(f).continuation_e)) &&
+//@    (is(f, SelectForm) ==> SelectForm(f).to_c.Channel == nil && SelectForm(f).continuation_c.Channel == nil) &&
+//@    (is(f, BranchForm) ==> BranchForm(f).payload_c.Channel == nil && unKid(BranchForm(f).continuation_e)) &&
+//@    (is(f, CaseForm) ==> CaseForm(f).from_c.Channel == nil && (forall i int :: 0 <= i && i < len(CaseForm(f).branches) ==> CaseForm(f).branches[i] == nil || (CaseForm(f).branches[i].payload_c.Channel == nil && unKid(CaseForm(f).branches[i].continuation_e)))) &&
+//@    (is(f, NewForm) ==> NewForm(f).new_name_c.Channel == nil && unKid(NewForm(f).body) && unKid(NewForm(f).continuation_e)) &&
+//@    (is(f, CloseForm) ==> CloseForm(f).from_c.Channel == nil) &&
+//@    (is(f, ForwardForm) ==> ForwardForm(f).to_c.Channel == nil && ForwardForm(f).from_c.Channel == nil) &&
+//@    (is(f, SplitForm) ==> SplitForm(f).channel_one.Channel == nil && SplitForm(f).channel_two.Channel == nil && SplitForm(f).from_c.Channel == nil && unKid(SplitForm(f).continuation_e)) &&
+//@    (is(f, CallForm) ==> (forall i int :: 0 <= i && i < len(CallForm(f).parameters) ==> CallForm(f).parameters[i].Channel == nil)) &&
+//@    (is(f, WaitForm) ==> WaitForm(f).to_c.Channel == nil && unKid(WaitForm(f).continuation_e)) &&
+//@    (is(f, CastForm) ==> CastForm(f).to_c.Channel == nil && CastForm(f).continuation_c.Channel == nil) &&
+//@    (is(f, ShiftForm) ==> ShiftForm(f).continuation_c.Channel == nil && ShiftForm(f).from_c.Channel == nil && unKid(ShiftForm(f).continuation_e)) &&
+//@    (is(f, DropForm) ==> DropForm(f).client_c.Channel == nil && unKid(DropForm(f).continuation_e)) &&
+//@    (is(f, PrintForm) ==> unKid(PrintForm(f).continuation_e))
+
+//@ contract interface Form.typecheckForm(self, gamma, sh, providerType, env, sigma, globalEnv)
+//@   requires uninit(self)
+//@   requires[C09] formOK(self) && gamma != nil && globalEnv != nil
+//@   ensures C05.lin: result == nil ==> lin(self, old(dom(gamma)), sh)
+//@   decreases[C09] fsize(self)
